@@ -39,11 +39,19 @@ def _res(I, addr, epoch):
     return carry(weights_of(I, addr, LP1), epoch)
 
 
-def _ob(kind):
+def _ob(kind, switches=False):
     def s(I):
         I.set_hint(HINT)
-        target = TARGETS[I.choose(4, 'target')]
-        to_victim = I.choose(2, 'receiver_is_victim') == 1
+        if switches:
+            # C17 variant: the three switches of the pool are symbolic, the lock target is the sender's own new position
+            sw = I.fork(I.symbool('swaps_enabled'))
+            dep = I.fork(I.symbool('deposits_enabled'))
+            wd = I.fork(I.symbool('withdrawals_enabled'))
+            target, to_victim = TARGETS[I.choose(3, 'target')], False
+        else:
+            sw = dep = wd = True
+            target = TARGETS[I.choose(4, 'target')]
+            to_victim = I.choose(2, 'receiver_is_victim') == 1
         # ---- pool manager: one funded constant-product pool
         pm_config(I)
         set_ownership(I, PM, 'creator')
@@ -51,7 +59,7 @@ def _ob(kind):
         x = I.sym('x1', lo=1, hi=U128 // 4)
         y = I.sym('y1', lo=1, hi=U128 // 4)
         S = I.sym('S1', lo=MINLIQ + 1, hi=U128 // 4)
-        put_pool(I, pool_info('p1', ['uA', 'uB'], [6, 6], [x, y], xyk(), param_fees(I)))
+        put_pool(I, pool_info('p1', ['uA', 'uB'], [6, 6], [x, y], xyk(), param_fees(I), status=pool_status(sw, dep, wd)))
         b.set(PM, 'uA', x)
         b.set(PM, 'uB', y)
         b.set(PM, LP1, MINLIQ)
@@ -103,7 +111,11 @@ def _ob(kind):
         if st != 'ok':
             I.outcome('rejected')
             return
-        I.cover('ok:%s' % target, HINT)
+        if switches:
+            I.cover('ok')
+            I.check('switched_off_operation_rejected_on_the_locked_path', dep and (sw or kind == 'both'))
+        else:
+            I.cover('ok:%s' % target, HINT)
         I.check('locks_only_for_the_sender_and_only_into_own_positions', allowed)
         I.check('no_temporary_bookkeeping_left', 'single_side_liquidity_provision_buffer' not in I.world.store(PM))
         shares = simp(b.supply[LP1] - pre.supply[LP1])
@@ -131,6 +143,11 @@ def _ob(kind):
         I.check('farm_manager_holds_the_locked_lp', smt.Eq(b.get(FM, LP1), pre.get(FM, LP1) + shares))
         I.check('no_liquid_lp_handed_out', smt.And(smt.Eq(b.get('trader', LP1), pre.get('trader', LP1)), smt.Eq(b.get('victim', LP1), pre.get('victim', LP1)),
                                                    smt.Eq(b.get(PM, LP1), pre.get(PM, LP1))))
+        # --- reserves stay backed (C01): balance minus reported reserve unchanged (zero here; odd single-asset deposit: one unit)
+        pool = get_pool(I, 'p1')
+        rs = {c.get('denom'): c.get('amount') for c in pool.get('assets').e}
+        odd = I.ctx.fmod(amt, 2) if kind == 'single' else 0
+        I.check('reserves_stay_backed', smt.And(smt.Eq(b.get(PM, 'uA') - rs['uA'], odd), smt.Eq(b.get(PM, 'uB') - rs['uB'], 0)))
         # --- weights: owner and total move by weight(shares), from the next epoch; nobody else holds or gains weight
         w = _w(I, shares)
         if w is None:
@@ -150,7 +167,8 @@ def _replay(kind):
         target = TARGETS[ch.get('target', 0)]
         to_victim = ch.get('receiver_is_victim', 0) == 1
         fees = fees_of_model(m)
-        steps = [{'op': 'set_pool', 'pool': pool_json('p1', ['uA', 'uB'], [6, 6], [m['x1'], m['y1']], 'constant_product', fees)}]
+        status = (m.get('swaps_enabled', True), m.get('deposits_enabled', True), m.get('withdrawals_enabled', True))
+        steps = [{'op': 'set_pool', 'pool': pool_json('p1', ['uA', 'uB'], [6, 6], [m['x1'], m['y1']], 'constant_product', fees, status=status)}]
         steps += _mints([('pool_manager', [('uA', m['x1']), ('uB', m['y1']), (LP1, MINLIQ)]),
                          ('farm_manager', [(LP1, m['pm_amt'] + m['pv_amt'])]),
                          ('sink', [(LP1, m['S1'] - MINLIQ - m['pm_amt'] - m['pv_amt'])]),
@@ -176,7 +194,7 @@ _STATEMENT = ('ProvideLiquidity (%s) with an unlocking duration, for every lock 
               'weight(shares), other users and the pool manager gain none; no temporary buffer is left')
 _COVERS = ['ok:new_auto', 'ok:new_explicit', 'ok:own']
 
-for _pid, _prefix in (('C14', 'L1'), ('C08', 'S5'), ('C10', 'S3')):
+for _pid, _prefix in (('C14', 'L1'), ('C08', 'S5'), ('C10', 'S3'), ('C01', 'S2')):
     for _kind in ('both', 'single'):
         obligation(_pid, '%s.locked_deposit_%s_assets' % (_prefix, _kind),
                    entries=['pool-manager::execute', 'provide_liquidity', 'pool-manager::reply', 'farm-manager::execute', 'create_position', 'expand_position',
@@ -184,3 +202,13 @@ for _pid, _prefix in (('C14', 'L1'), ('C08', 'S5'), ('C10', 'S3')):
                    kind='S', statement=_STATEMENT % ('two assets' if _kind == 'both' else 'one asset: swap half, reply, self-call'),
                    bounds='one funded constant-product pool, two open positions (sender, other user) with symbolic amounts and weights, symbolic deposit; '
                           'unlocking duration 30 days; 4 lock targets x 2 receivers', covers=_COVERS, replay=_replay(_kind))(_ob(_kind))
+
+
+for _kind in ('both', 'single'):
+    obligation('C17', 'S3.locked_deposit_%s_assets_respects_switches' % _kind,
+               entries=['pool-manager::execute', 'provide_liquidity', 'pool-manager::reply', 'farm-manager::execute', 'create_position', 'expand_position'],
+               kind='S', statement='ProvideLiquidity (%s) with an unlocking duration under all 8 switch states of the pool: executes only when deposits are enabled%s; when it '
+                                   'executes, everything the locked-deposit obligation (C14.L1) demands holds as with all switches on' % (
+                                       'two assets' if _kind == 'both' else 'one asset', '' if _kind == 'both' else ' and swaps are enabled (it swaps internally)'),
+               bounds='as C14.L1 with symbolic switches; lock targets: new generated id / new explicit id / own position', covers=['ok'],
+               replay=_replay(_kind))(_ob(_kind, switches=True))
